@@ -5,6 +5,9 @@ import (
 	"github.com/zclconf/go-cty/cty/msgpack"
 )
 
+var prevMpBytes []byte
+var prevMpDigest string
+
 func init() { register("mpack", driveMpack) }
 
 func driveMpack(c *Ctx) error {
@@ -29,6 +32,10 @@ func driveMpack(c *Ctx) error {
 						ev["m"] = failed("error", trunc(err.Error()))
 					default:
 						ev["m"] = J{"ok": true, "len": len(b)}
+						if prevMpBytes != nil {
+							ev["pb"], ev["pb2"] = prevMpDigest, digestOf(string(prevMpBytes))
+						}
+						prevMpBytes, prevMpDigest = b, digestOf(string(b))
 						var back cty.Value
 						var berr error
 						bp, bmsg := guard(func() { back, berr = msgpack.Unmarshal(b, ty) })
